@@ -124,6 +124,9 @@ func colName(c Col) string {
 
 func constInt(e *E, bind func(string) (val.V, bool)) (int, error) {
 	v := Eval(e, &EvalCtx{Row: Row{}, Bind: bind})
+	if v.K == val.Float && v.F >= 9.2e18 && e.K == "num" {
+		return int(^uint(0) >> 1), nil // an integer literal beyond int64: more rows than any table has
+	}
 	if v.K != val.Int || v.I < 0 {
 		return 0, ierr("row count is not a non-negative integer constant: %v", v)
 	}
